@@ -313,7 +313,7 @@ def fam_proc(rng, big):
     errsz = pick_size(rng, 300000)
     how = rng.choice(["exit", "exit", "signal"])
     code = rng.choice([0, 1, 2, 37, 126, 127, 128, 129, 137, 254, 255]) if rng.chance(1, 2) else rng.range(0, 255)
-    sig = rng.choice([1, 2, 3, 6, 9, 10, 13, 14, 15])
+    sig = rng.choice([1, 2, 3, 6, 9, 10, 14, 15])
     sc = {"family": "proc", "streams": [{"kind": ":proc", "errpayload": 1, "how": how, "code": code, "sig": sig}],
           "payload_sizes": [insz, errsz], "fibers": [], "expects": [], "complete": True, "proc": True,
           "expect_status": code if how == "exit" else 128 + sig}
@@ -453,6 +453,24 @@ def oracle(sc, res):
         orphan_r = [p for p in stuck if p[1] == "read" and p[4] == "0"]
         orphan_w = [p for p in stuck if p[1] == "write" and p[4] == "0"]
         names = ", ".join("%s[%s] %s %s" % (o["fiber"], o["idx"], o["kind"], " ".join(o["args"])) for o in hung[:6])
+        # an op is "contended" when another fiber started an op on the same end and direction while it was still pending
+        def contended(o):
+            if o["kind"] not in READ_KINDS + ("write", "readall", "recvfrom", "sendto") or len(o["args"]) < 2:
+                return False
+            isw = o["kind"] in ("write", "sendto")
+            for p2 in ops:
+                if p2 is o or p2["fiber"] == o["fiber"] or len(p2["args"]) < 2 or p2["args"][:2] != o["args"][:2]:
+                    continue
+                if (p2["kind"] in ("write", "sendto")) == isw and p2["kind"] not in ("close", "slots", "until-pending", "shutdown") and p2["start"] > o["start"]:
+                    return True
+            return False
+        cont = [o for o in hung if contended(o)]
+        if not orphan_r and not orphan_w and cont:
+            # the orphaned fiber may already have been garbage collected (silently dropped instead of suspended forever)
+            if cont[0]["kind"] in ("write", "sendto"):
+                orphan_w = [("?", "write", "?", "0", "0", "0")]
+            else:
+                orphan_r = [("?", "read", "?", "0", "0", "0")]
         if orphan_r:
             avail = any(int(p[5]) & 0x11 for p in orphan_r)   # POLLIN | POLLHUP
             fails.append(("second-reader-orphans-first",
